@@ -21,7 +21,9 @@ META = {
     "rule": "a case = one generated hourly book world (ETH or BTC config, 1-3 instruments, 0-12 levels a side, int / "
     "float / 0.1-step sizes, cheap / mid / high / dyadic marks) and 1-3 segments of 1-12 buys and sells (market, "
     "limit on / near / off a level, usd-priced, capped, capped+limit; sizes from one step to whole side + 1 step, "
-    "fractional and tie amounts) separated by refreshes; every comparison with the model is one evaluation. "
+    "fractional and tie amounts) separated by refreshes, plus per shard a few 'sweep' scenes (BTC books with 0.1-grid "
+    "sizes: market buys / sells of part of the best level followed by sweeps past it); every comparison with the "
+    "model is one evaluation. "
     "Non-trivial = an accepted fill touching >=2 levels, or any order (accepted or refused) that follows an earlier "
     "fill on the same side of the same book since the last refresh; distinct by (token, side, pricing mode, size "
     "class, levels touched, earlier fills bucket, decision class, outcome, size kind).",
@@ -283,8 +285,9 @@ def check_state(cs: Case, m, eng: O.Engine, op, mode, moment, touched=None):
 
 
 # ------------------------------------------------------------------------------------------------ order generation
-def gen_order(rng, eng: O.Engine, names, seg_has_fill):
-    """returns dict(is_buy, name, req (Fraction), limit, limit_usd, cap (Fractions or None), mode, size_class)."""
+def gen_order(rng, eng: O.Engine, names, force=None):
+    """returns dict(is_buy, name, req (Fraction), limit, limit_usd, cap (Fractions or None), mode, size_class).
+    force (scene cases): {"name", "is_buy", "classes"} -> a market order on the step grid of one of these size classes."""
     step = eng.step
     name = rng.choice(names)
     held = eng.pos[name].amount if name in eng.pos else Fraction(0)
@@ -292,6 +295,9 @@ def gen_order(rng, eng: O.Engine, names, seg_has_fill):
         is_buy = rng.random() < 0.45
     else:
         is_buy = rng.random() < 0.88
+    if force:
+        name, is_buy = force["name"], force["is_buy"]
+        held = eng.pos[name].amount if name in eng.pos else Fraction(0)
     # prefer the side that already has fills (sequence effects)
     levels = eng.side(name, is_buy)
     live = [lv for lv in levels if lv[1] > 0]
@@ -305,6 +311,8 @@ def gen_order(rng, eng: O.Engine, names, seg_has_fill):
     if not is_buy and held > 0:
         classes += ["held", "held+step", "part-held", "part-held"]
     sc = rng.choice(classes)
+    if force:
+        sc = rng.choice(force["classes"])
     if sc == "one-step":
         req = step
     elif sc == "part-best":
@@ -334,6 +342,8 @@ def gen_order(rng, eng: O.Engine, names, seg_has_fill):
         req = to_step(held * rng.randint(20, 100) / 100)
     # fractional noise
     r = rng.random()
+    if force:
+        r = 1.0
     frac = "step"
     if r < 0.10:
         req = req + step / 2  # exact tie
@@ -351,6 +361,8 @@ def gen_order(rng, eng: O.Engine, names, seg_has_fill):
     book = eng.books[name]
     mark, under = book["mark"], book["under"]
     mode_kind = rng.choice(["market"] * 5 + ["limit"] * 4 + ["usd"] * 2 + ["cap"] * 3 + ["cap+limit"])
+    if force:
+        mode_kind = "market"
     limit = limit_usd = cap = None
     sub = ""
     if "limit" in mode_kind or mode_kind == "usd":
@@ -578,11 +590,15 @@ def run_order(cs: Case, m, eng: O.Engine, od, size_kind, after_refresh):
 
 
 # ------------------------------------------------------------------------------------------------ one case
-def one_case(mon, rng, c):
+def one_case(mon, rng, c, scene=None):
     token = rng.choice(["ETH", "ETH", "BTC"])
     style = rng.choice(["base", "any", "any", "any", "cheap", "high", "dyadic", "mid"])
     size_kind = rng.choice(["int", "float", "mixed", "mixed", "one"])
     n_instr = rng.randint(1, 3)
+    if scene == "sweep":
+        # sweeps over a partly consumed level on books whose sizes are on the 0.1 grid (23.4 - 0.1 is not a float
+        # difference): what is left of a level after a fill must be what the next order can take, to the digit
+        token, size_kind, style = "BTC", "float", rng.choice(["base", "any", "high", "mid"])
     w = BookWorld(rng, token, n_instr, hours=3, style=style, size_kind=size_kind)
     m = w.market()
     from demeter.deribit import DeribitOptionMarket
@@ -614,8 +630,17 @@ def one_case(mon, rng, c):
         check_state(cs, m, eng, "refresh", "-", "initial-book")
         segments = rng.randint(1, 3)
         for seg in range(segments):
-            for _ in range(rng.randint(1, 12)):
-                od = gen_order(rng, eng, names, None)
+            for k in range(rng.randint(1, 12) if scene is None else 8):
+                force = None
+                if scene == "sweep":
+                    # buy part of the best ask, sweep past it, again, take all that is left; then the same on the bid
+                    # side with what is held
+                    part = k % 2 == 0
+                    force = {"name": names[0], "is_buy": k < 4,
+                             "classes": ["part-best", "one-step"] if part else (["best+step", "multi"] if k % 4 == 1 else ["whole"])}
+                    if not force["is_buy"] and names[0] not in eng.pos:
+                        force["is_buy"] = True
+                od = gen_order(rng, eng, names, force)
                 run_order(cs, m, eng, od, size_kind, seg > 0)
             if seg == segments - 1:
                 break
@@ -640,12 +665,16 @@ def one_case(mon, rng, c):
 
 
 def run(spec, mon):
-    for c in range(spec["cases"]):
+    n = spec["cases"]
+    n_scene = 4 if spec.get("tier", "quick") == "quick" else 60
+    for c in range(n + n_scene):
         rng = mon.case_rng(c)
         if not mon.want(c):
             continue
         try:
-            one_case(mon, rng, c)
+            one_case(mon, rng, c, scene=None if c < n else "sweep")
+            if c >= n:
+                mon.hit("sweep-scene")
         except Exception as e:  # harness or code crashed in an unexpected place
             import traceback
 
